@@ -81,7 +81,7 @@ def defuse_xml(fp: IOType, rewind: bool = True) -> IOType:
         for event, node in pulldom.parse(fp, parser):
             if event == pulldom.START_ELEMENT:
                 break
-    except SAXParseException as err:
+    except (SAXParseException, LookupError, ValueError) as err:
         # An XML source that cannot be scanned is not defused: another
         # parser could succeed where expat fails (e.g. other encodings).
         raise XMLResourceParseError("invalid XML syntax: {}".format(err)) from err
